@@ -513,6 +513,7 @@ def run(ck):
     ck.rule('C09.d', 'read capacity: every backend read fits between payload.data and the end of the block (linear entailment incl. header length); ETXOVERFLOW carries the buffer size')
     ck.rule('C09.e', 'early replies read headers from initialised memory only (fallback buffer or block + sizeof(RPFrame)), never from the unparsed frame object')
     ck.rule('C09.f', 'parse_header: every header read is covered by the length guards; parse_frame raw window = (block + sizeof(RPFrame), used - sizeof(RPFrame))')
+    ck.rule('C09.h', 'the counted transfer that moves a length-prefixed frame into the receive sink (sts_n and what it steps with) moves exactly n octets, zero for n == 0, and returns the first hard error (C17.f, C17.b-d re-evaluated)')
     ck.rule('C09.g', 'payload checksum extent <= payload.size on every path (per frame type, with the division axiom for 16-bit words)')
     ck.not_decided += ['memory safety for arbitrary streams as a whole (sanitizer/fuzzer territory); these are the obligations visible in the code structure',
                        'allocator and backend callbacks (user code)']
@@ -524,3 +525,7 @@ def run(ck):
     rule_bce(ck, R)
     rule_d(ck, R)
     rule_fg(ck, R)
+    from .common import reevaluate
+    reevaluate(ck, 'C09.h', 'c17', lambda r, k: (r == 'C17.f' and k.startswith(('sts_n', 'sts_atmost', 'sts_drain'))) or
+               (r in ('C17.b', 'C17.c', 'C17.d') and k.startswith(('source_get_chunk', 'source_adapt'))),
+               'a length-prefixed frame is moved into the receive sink with sts_n(source, sink, length): exactly that many octets, none for an empty frame, whatever the source answers')
